@@ -24,7 +24,7 @@ Definition has_varkw (ps : sig) : bool := existsb is_varkw ps.
 
 (* 1. positional arguments fill the positional-or-keyword parameters in order;
       left-over positionals: TypeError (there is no *args) *)
-Fixpoint bind_pos (ps : sig) (args : list Z) : res (list (name * Z)) :=
+Fixpoint bind_pos (ps : sig) (args : list Z) {struct args} : res (list (name * Z)) :=
   match args with
   | [] => Ok []
   | v :: rest =>
